@@ -70,6 +70,10 @@ static bool gen(vf::Rng& g, uint64_t idx, bool thorough, Case& c) {
   c.db = T(rb * al); c.de = T(re * al);
   if (g.irange(0, 7) == 0) { c.db = -c.db; c.de = -c.de; }  // the code accepts any non-zero density
   c.xb = xb; c.xe = xe;
+  // the stratum is a property of the rounded inputs, whatever the way they were drawn: a
+  // "graded" draw with a small first density can land on either side of the 1e-5 switch
+  const L d = std::fabs(ideal_ratio(c.xb, c.xe, c.db, c.de) - 1);
+  c.stratum = d == 0 ? "equal" : d <= 1.1e-5L ? "near-uniform" : d <= 1e-3L ? "nearly-equal" : "graded";
   return true;
 }
 
